@@ -113,7 +113,7 @@ func rebuildCompareCommand() {
 func performCompare(processAll bool, ctx *processors.Context) error {
 	failed := false
 	if processAll {
-		err := filepath.WalkDir(ctx.RootContext().AssemblyDir(), func(filePath string, dirEntry fs.DirEntry, err error) error {
+		err := filepath.WalkDir(utils.WalkRoot(ctx.RootContext().AssemblyDir()), func(filePath string, dirEntry fs.DirEntry, err error) error {
 			if err != nil {
 				// fail: a directory that cannot be listed must not pass for an empty one
 				return err
